@@ -10,7 +10,8 @@ from vgen import reactions as G
 RULE = ("base reactions (corpus + deletion + redox + ionic generators) whose outcome is input-balanced or rule-based; "
         "variants: random atom order, kekulised, canonical/aromatic, explicit-H / explicit-bond spellings, random "
         "atom-map assignments, molecules permuted within a side (all seeded); base and variants go through the real "
-        "Balancer in one batch; compared: (solved, solved_by) of the returned rows and the multiset of added "
+        "Balancer in one batch (also whole families of reactions over the same molecules with other multiplicities together "
+        "with re-spellings of every member); compared: (solved, solved_by) of the returned rows and the multiset of added "
         "fragments per side taken from the snapshot before reagent templates are applied; distinct non-trivial = "
         "distinct (base, variant) whose text differs from the base")
 ASSUMPTIONS = ["a variant is accepted only if the independent oracle finds the same fragment multisets on both sides",
@@ -99,8 +100,10 @@ def plan(tier, seed):
     pairs += [(t, rx) for t, rx in G.balanced_corpus()[: (60 if q else 1500)]]
     rng.shuffle(pairs)
     shards = [{"bases": c, "k": 6 if q else 10} for c in common.stripe(pairs, 16 if q else 48)]
-    for sh in shards:
+    fams = G.self_reaction_families(rng, 32 if q else 300)
+    for i, sh in enumerate(shards):
         sh["ambiguous"] = 8 if q else 30
+        sh["families"] = fams[i::len(shards)]
     return shards
 
 
@@ -127,6 +130,20 @@ def additions(out, pos, input_reaction):
 
 def work(shard, res, tier, seed):
     rng = common.rng(seed, "C14w", str(shard.get("bases", ""))[:60])
+    if "replay" in shard and shard["replay"].get("batch"):
+        v = shard["replay"]
+        inputs = v["batch"]
+        case = {"inputs": inputs, "cfg": {"batch_size": None, "threshold": 0, "n_jobs": 1}}
+        out = rowlib.run_case(case)
+        if rowlib.aligned(case, out):
+            b = out["rows"][inputs.index(v["case"]["base"])]
+            g = out["rows"][inputs.index(v["case"]["variant"])]
+            res.ev()
+            bv, gv = (b.get("solved"), b.get("solved_by")), (g.get("solved"), g.get("solved_by"))
+            if bv != gv:
+                res.viol("verdict_depends_on_spelling", base=list(bv), variant=list(gv), case=v["case"],
+                         base_row=b, variant_row=g, batch=inputs)
+        return
     if "replay" in shard:
         v = shard["replay"]
         shard = {"bases": [("replay", v["case"]["base"])], "k": 12, "forced": [v["case"].get("variant")]}
@@ -215,9 +232,55 @@ def work(shard, res, tier, seed):
                 res.viol("added_molecules_depend_on_spelling", base_added=base_add, variant_added=got_add, **w)
         if len(res.samples) < 2:
             res.sample({"base": rx, "variants": vs[:3], "verdict": list(base_v), "added": base_add})
+    # 3) families
+    for fam in shard.get("families", []):
+        family_part(fam, rng, res, cfg)
+
+
+def family_part(fam, rng, res, cfg):
+    """a family of reactions over the same molecule strings with different multiplicities is run in one batch
+    together with re-spellings of each member; every re-spelling must get the verdict and additions of its member"""
+    members = [rx for _, rx in fam if oracle.in_domain_rsmi(rx)]
+    inputs, owner = list(members), [None] * len(members)
+    for k, rx in enumerate(members):
+        for v in variants(rx, rng, 2):
+            inputs.append(v)
+            owner.append(k)
+    if len(inputs) == len(members):
+        return
+    case = {"inputs": inputs, "cfg": cfg}
+    try:
+        with common.alarm(240):
+            out = rowlib.run_case(case)
+    except common.Watchdog:
+        res.count("watchdog(inconclusive)")
+        return
+    if not rowlib.aligned(case, out):
+        res.count("cases_not_aligned(C05)")
+        return
+    rows = out["rows"]
+    res.count("families_run")
+    for pos, k in enumerate(owner):
+        if k is None:
+            continue
+        b, g = rows[k], rows[pos]
+        base_v, got_v = (b.get("solved"), b.get("solved_by")), (g.get("solved"), g.get("solved_by"))
+        det = [v for v in (base_v, got_v) if v[0] and v[1] in ("input-balanced", "rule-based")]
+        if not det or any(isinstance(r.get("issue"), str) and "timeout" in r["issue"].lower() for r in (b, g)):
+            continue
+        res.ev()
+        res.count("family_variants_evaluated")
+        res.case([members[k], inputs[pos]])
+        w = dict(case={"base": members[k], "variant": inputs[pos]}, base_row=b, variant_row=g, batch=inputs)
+        if got_v != base_v:
+            res.viol("verdict_depends_on_spelling", base=list(base_v), variant=list(got_v), **w)
+            continue
+        a0, a1 = additions(out, k, b["input_reaction"]), additions(out, pos, g["input_reaction"])
+        if a0 is not None and a1 is not None and a0 != a1:
+            res.viol("added_molecules_depend_on_spelling", base_added=a0, variant_added=a1, **w)
 
 
 def conclude_args(res, tier, seed):
     return {"need": {"variants_evaluated": 500, "bases:rule-based": 50, "bases:input-balanced": 30,
-                     "ambiguous_completion_bases": 40},
+                     "ambiguous_completion_bases": 40, "family_variants_evaluated": 40},
             "min_cases": 300}
